@@ -119,6 +119,25 @@ fn run(input: RunInput) -> ScenFuture {
             h.net.known_peers().insert(anemo::types::PeerInfo { peer_id: public_key(&q_key), affinity: anemo::types::PeerAffinity::High, address: vec![silent.addr.into()] });
             w.probe("background-dials-of-a-silent-listener");
         }
+        // "Another thread" of H's application asks for a peer to be disconnected right at the points
+        // at which H's connection manager (or anybody) is about to take the active-peer lock and, by
+        // the hook's contract (H7), holds none of it: what a writer arriving on another worker thread
+        // does on a real machine. Somebody still holding a read guard there - a lock taken
+        // recursively - would have the writer wait on him and himself wait behind the writer
+        // (std's RwLock prefers writers): here the simulation thread deadlocks on itself and the
+        // watchdog reports the hang.
+        let writer_at_lock_points = w.flag("h_a_writer_arrives_at_lock_points", 0.3);
+        if writer_at_lock_points {
+            let net = h.net.clone();
+            let mut pr = w.rng("wl:lock-point-writer");
+            let w2 = w.clone();
+            anemo::verif::set_sched_hook(Some(Box::new(move |tag| {
+                if tag == "active-peers" && pr.gen_bool(0.03) {
+                    let _ = net.disconnect(anemo::PeerId([0xDD; 32]));
+                    w2.probe("writer-arrived-at-a-lock-point");
+                }
+            })));
+        }
         // whatever H's known-peer table says about the two (High or Allowed, with or without an
         // address) changes nothing about what a connected peer can do to it
         w.vary_known_peers(&h, &[(public_key(&adv_key), Some(adv.addr)), (p.peer_id, Some(p.addr))], true);
@@ -481,6 +500,7 @@ fn run(input: RunInput) -> ScenFuture {
         w.probe_n("probes-ok", probe_ok.load(Ordering::SeqCst));
         w.probe_n("hostile-wellformed-ok", adv_ok);
         w.sample("script", json!({"ops": kinds, "lossy": lossy, "h_max_bidi": max_bidi, "h_frame_limit": frame_limit}));
+        anemo::verif::set_sched_hook(None);
         let out = w.finish();
         drop((h, p, q, adv, silent));
         out
